@@ -628,6 +628,12 @@ fn dhw_fragile(r: &Value, margin: f64) -> bool {
         }
     }
     let mut fragile = false;
+    // "annual DHW demand == 0" is a third threshold test: a demand that the printed precision can round to zero
+    if margin > 0.0 {
+        if let Some(d) = r.pointer("/balance/needs/ACS").and_then(|v| v.as_f64()) {
+            fragile |= d.abs() <= margin + 1e-9;
+        }
+    }
     if let Some(e) = el {
         fragile |= ((e - aux).abs() - 0.01).abs() <= margin + 1e-9;
     }
